@@ -119,7 +119,8 @@ type Exec struct {
 	stepEvents      int
 	Log             []string
 	UserData        interface{}
-	lastDumpCount   int  // runtime.NumGoroutine() at the last full dump
+	exited          chan struct{} // harness threads signal their exit here (a real happens-before edge for the harness's final reads)
+	lastDumpCount   int           // runtime.NumGoroutine() at the last full dump
 	released        *Thread
 	FullDumps       int
 	FastSteps       int
@@ -170,7 +171,7 @@ func curGoid() int64 {
 //
 //go:norace
 func NewExec(prefix []int, prefixN []int) *Exec {
-	x := &Exec{prefix: prefix, prefixN: prefixN, Horizon: 3000, nextSpawnLID: 100}
+	x := &Exec{prefix: prefix, prefixN: prefixN, Horizon: 3000, nextSpawnLID: 100, exited: make(chan struct{}, maxThreads)}
 	x.baseGoid = maxGoid()
 	x.stackBuf = make([]byte, 1<<20)
 	x.active = true
@@ -347,6 +348,7 @@ func threadMain(x *Exec, t *Thread, fn func()) {
 	park(t)
 	fn()
 	t.status = 2
+	x.exited <- struct{}{}
 }
 
 // AddEvent registers a harness environment event.
@@ -493,6 +495,7 @@ func (x *Exec) fastQuiescent() bool {
 }
 
 // waitQuiescent yields until no goroutine created since the execution began is busy.
+//
 //go:norace
 func (x *Exec) waitQuiescent() bool {
 	if x.fastQuiescent() {
@@ -777,6 +780,14 @@ func (x *Exec) Finish() {
 		}
 		if round > 20 {
 			time.Sleep(100 * time.Microsecond)
+		}
+	}
+	// acquire from every harness thread that has finished, so that the harness may read what they wrote
+	for more := true; more; {
+		select {
+		case <-x.exited:
+		default:
+			more = false
 		}
 	}
 	cur = nil
